@@ -16,11 +16,13 @@ PROP = 'C19'
 ASSUME = ['environment model T1-T6 / A-REST of DESIGN.md section 7', 'harness-side encoders of the peer UPDATEs (harness/rib_worker.py, harness/wire.py)',
           'attribute sets are told apart by their MED value', 'TLC/SANY, CommunityModules Json/IOUtils']
 _G = None
+_G2 = None
+_G3 = None
 
 
-def cfg(maxops):
-    return ('CONSTANTS K4 = {"p1", "p2"} KF = {"f1", "f2"} KV = {"v1", "v2"}\n ATTRS = {1, 2} MAXOPS = %d\nINIT Init\nNEXT Next\nVIEW View\n'
-            'INVARIANT C19_Empty\nPROPERTY C19_Version\nPROPERTY C19_Other\nCHECK_DEADLOCK FALSE\n' % maxops)
+def cfg(maxops, maxseq=2):
+    return ('CONSTANTS K4 = {"p1", "p2"} KF = {"f1", "f2"} KV = {"v1", "v2"}\n ATTRS = {1, 2} MAXOPS = %d MAXSEQ = %d\nINIT Init\nNEXT Next\nVIEW View\n'
+            'INVARIANT C19_Empty\nPROPERTY C19_Version\nPROPERTY C19_Other\nCHECK_DEADLOCK FALSE\n' % (maxops, maxseq))
 
 
 def _work(args):
@@ -29,8 +31,8 @@ def _work(args):
     path = os.path.join(outdir, 'rib_%04d.ndjson' % k)
     drifts, steps = [], 0
     with open(path, 'w') as fh:
-        for tid, walk in items:
-            lines, drift, n = R.replay_walk(_G, walk, tid)
+        for tid, (gi, walk) in items:
+            lines, drift, n = R.replay_walk((_G, _G2, _G3)[gi], walk, tid)
             for ln in lines:
                 fh.write(json.dumps(ln, separators=(',', ':')) + '\n')
             steps += n
@@ -49,7 +51,7 @@ def validate(ndjson):
 
 
 def run(prop, tier, seed):
-    global _G
+    global _G, _G2, _G3
     v = common.Verdict(PROP)
     work = tempfile.mkdtemp(prefix='vrib_')
     try:
@@ -61,9 +63,24 @@ def run(prop, tier, seed):
         _G = g
         walks = graph.plan_tour(g, None, seed=seed, max_len=12)
         walks += graph.random_walks(g, 400 if tier == 'quick' else 4000, 10, seed)
+        jobs = [(0, w) for w in walks]
+        # longer histories (re-announcing the same route three and more times) over single-route lists
+        g2 = tlc.dump_graph('Rib', cfg(4 if tier == 'quick' else 5, 1).replace('PROPERTY C19_Version\nPROPERTY C19_Other\n', ''), raw=True)
+        _G2 = g2
+        deep = graph.random_walks(g2, 3000 if tier == 'quick' else 30000, 8, seed + 1)
+        jobs += [(1, w) for w in deep]
+        # every history of <= 4 operations (announce with attribute set 1 / 2, withdraw, drop + new session) on ONE route
+        # of one family and direction: the implementation's hidden per-route state is exercised along all paths
+        g3 = tlc.dump_graph('Rib', ('CONSTANTS K4 = {"p1"} KF = {"f1"} KV = {"v1"}\n ATTRS = {1, 2} MAXOPS = 4 MAXSEQ = 1\nINIT Init\nNEXT Next\nVIEW View\n'
+                                    'INVARIANT C19_Empty\nCHECK_DEADLOCK FALSE\n'), raw=True)
+        _G3 = g3
+        chains = graph.all_paths(g3, 4 if tier == 'quick' else 5, same=lambda ev: (ev['d'], ev['f']) if ev['k'] == 'update' else None)
+        chains = [c for c in chains if len(c) >= 3]
+        jobs += [(2, w) for w in chains]
+        walks = walks + deep + chains
         # deeper random histories than the exhaustive bound: continue random walks by re-entering the graph is not possible,
         # so long histories come from concatenating walks that end in the initial state's class (drop + new session)
-        items = list(enumerate(walks))
+        items = [(i, j) for i, j in enumerate(jobs)]
         procs = 16
         chunks = [items[i::procs * 2] for i in range(procs * 2)]
         with mp.get_context('fork').Pool(procs) as pool:
